@@ -39,7 +39,7 @@ def fit_case(cid, kind, P, Hd, order, queries, s):
     for k, c in enumerate(hcols):
         X[:, c] = Hd[:, k] / s
     y = P[:, 0] / s
-    c = {"id": cid, "kind": kind, "Pt": P.astype(int).tolist(), "sel": [], "sgn": [], "dq": [], "hres": [], "queries": [],
+    c = {"id": cid, "kind": kind, "Pt": P.astype(int).tolist(), "sel": [], "sgn": [], "dq": [], "hres": [], "hnan": [], "queries": [],
          "raised": False, "nbase": 0, "basesel": [], "basedq": [], "A": 1, "B": 0}
     try:
         with warnings.catch_warnings():
@@ -52,8 +52,10 @@ def fit_case(cid, kind, P, Hd, order, queries, s):
             if nh:
                 res = np.asarray(m.score_feature_matrix(X))
                 c["hres"] = [bool(np.all(np.abs(r) < 1e-9)) for r in res.reshape(n, -1)]
+                c["hnan"] = [bool(np.any(~np.isfinite(r))) for r in res.reshape(n, -1)]
             else:
                 c["hres"] = [True] * n
+                c["hnan"] = [False] * n
             for (qy, qx) in queries:
                 Xq = np.zeros((1, ncol))
                 for k, cc in enumerate(cols):
@@ -123,7 +125,7 @@ def gen(args):
 
 
 def strip(c):
-    return {k: c[k] for k in ("id", "kind", "Pt", "sel", "sgn", "dq", "hres", "queries", "raised", "nbase", "basesel", "basedq", "A", "B")}
+    return {k: c[k] for k in ("id", "kind", "Pt", "sel", "sgn", "dq", "hres", "hnan", "queries", "raised", "nbase", "basesel", "basedq", "A", "B")}
 
 
 def run(tier):
